@@ -1119,3 +1119,17 @@ def handler_sends_own_event_to_wal_bus():
                 ['B', 'P', 'hB', [['ret', 'b']]], ['B', 'X', 'hXB', [['ret', 'x']]]]
     main = [['root', 'B', 'X', 'X0'], ['idle', 'B'], ['root', 'A', 'P', 'P1'], ['await', 'P1'], ['idle', 'A'], ['idle', 'B'], ['obs_all', 'end']]
     return dict(buses=['A', 'B'], order=['B', 'A'], wal=['B'], reals={'d1': ['0', '1/5']}, handlers=handlers, main=main, horizon=6)   # (registry order B, A: the drain looks at B's queue first)
+
+
+
+def same_handler_three_levels_with_forward(order=('A', 'B')):
+    """A forwards everything to B (the forward is registered first); ONE wildcard handler object on A serves three nested levels:
+    for P it awaits a child C, for C it awaits a grandchild G, for G it works for d2.  An unrelated event arrives meanwhile.
+    (Three levels of the same handler are legal: the recursion guard only warns.)"""
+    sw = {'P': [['dispawait', 'A', 'C', 'C1'], ['ret', 'p']], 'C': [['dispawait', 'A', 'G', 'G1'], ['ret', 'c']], 'G': [['sleep', 'd2'], ['ret', 'g']],
+          'X': [['ret', 'x']]}
+    handlers = [['B', 'P', 'hBP', [['ret', 'b']]], ['B', 'C', 'hBC', [['ret', 'b']]], ['B', 'G', 'hBG', [['ret', 'b']]], ['B', 'X', 'hBX', [['ret', 'b']]]]
+    late = [['A', '*', 'hW', [['switch', sw]]]]
+    main = [['root', 'B', 'X', 'X0'], ['idle', 'B'], ['root', 'A', 'P', 'P1'], ['await', 'P1'], ['idle', 'A'], ['idle', 'B'], ['obs_all', 'end']]
+    return dict(buses=['A', 'B'], order=list(order), reals={'d2': D, 't_x': TI}, handlers=handlers, late_handlers=late, forwards=[['A', 'B']], main=main,
+                actors={'x': [['sleep', 't_x'], ['root', 'A', 'X', 'X1']]}, horizon=6)
